@@ -280,6 +280,10 @@ func (c *Ctx) seqPop() {
 	sv := c.stackValues(fn)
 	h0 := c.entryHeader(fn)
 	var problems []string
+	if es := c.headerElemStores(fn); len(es) > 0 {
+		problems = append(problems, fmt.Sprintf("Pop writes %d element slot(s) besides re-slicing the header (e.g. at %s): an element that stays would be overwritten", len(es), c.p.instrPos(es[0].st)))
+	}
+
 	n := 0
 	nRemoved := 0
 	for _, ret := range c.returnsOf(fn) {
